@@ -21,6 +21,9 @@ CHECKS = {
             "of every recorded execution.", "8 C05"),
     "C06": ("model_checking", "Obs.tla keeps the promised priority of every bar (default = creation order, immediate and lazy changes, hand-over to "
             "a queued successor) and checks every stored frame's order, with the one-frame exemption after a lazy change.", "8 C06"),
+    "C09": ("model_checking", "BarState.tla (one action per mutator, phases live/term/exited) is model-checked by TLC (invariants and action "
+            "properties of the documented rules); TLC emits its complete labelled transition relation and every transition (quick: a seeded "
+            "sample) is replayed on a real bar as path+edge, the getters after every call being explained by a subset construction over the relation.", "8 C09"),
     "C11": ("model_checking", "BarState.tla invariants (exclusive, stable) by TLC; on real executions Obs.tla rules completed-and-aborted, "
             "completed-unstable, aborted-unstable, row-completed-and-aborted, row-terminal-state-changed, not-exactly-one-terminal-state.", "8 C11"),
     "C12": ("model_checking", "Obs.tla rules column-width (all widths handed back in one column equal the maximum needed), plain-width, "
@@ -37,8 +40,11 @@ CHECKS = {
     "C18": ("model_checking", "Obs.tla rules popped-not-on-top, order, last-row-not-final on pop-completed programs; Term.tla for the screen.", "8 C18"),
 }
 
-TECH = {p: "TLA+ trace validation (TLC on Obs.tla) of gate-scheduled executions of the real library; MPBCore.tla model checking"
+TECH0 = {p: "TLA+ trace validation (TLC on Obs.tla) of gate-scheduled executions of the real library; MPBCore.tla model checking"
         for p in CHECKS}
+TECH = dict(TECH0)
+TECH["C09"] = "TLC model checking of BarState.tla + replay of its TLC-emitted transition relation on the real Bar"
+TECH["C11"] = "TLC model checking of BarState.tla + replay of its transition relation; TLA+ trace validation (Obs.tla) of gate-scheduled executions"
 
 NOT_YET = {}
 
